@@ -176,6 +176,14 @@ def programs(tier: str) -> list[tuple[str, str]]:
         for fb in bodies(nf, call=True):
             for gb in gsmall:
                 add("C", fb, gb)
+    # Family E: state written by g flows into f's value ACROSS a nested call, and the test then calls g
+    # again (mutate -> read -> mutate): every f that calls g x every g that stores the global
+    ne_f, ne_g = (3, 2) if tier == "quick" else (3, 3)
+    g_store = [gb for gb in bodies(ne_g, call=False) if "Gx" in gb[0]]
+    for fb in bodies(ne_f, call=True):
+        if "call" in fb[0]:
+            for gb in g_store:
+                add("E", fb, gb)
     for src in shape_programs():
         if src not in seen:
             seen.add(src)
@@ -643,6 +651,8 @@ def run(ctx):
                         "family_D": f"{N_SHAPES} control-flow shapes (straight, if, if/else, nested if, nested "
                                     "if/else, two ifs, constant-guarded if/else) for f x the same for g x "
                                     "{g called after, before f's structure}",
+                        "family_E": "every f (<= 3 menu statements) that calls g x every g (<= 2 quick / 3 thorough "
+                                    "menu statements) that stores the global",
                         "inputs": list(INPUTS), "menu": sorted(ITEMS)})
     ctx.note("programs_total", len(progs))
     ctx.exhaustive = True
